@@ -10,6 +10,7 @@ package main
 //   F  start element "entry" whose DecodeElement hits a syntax error (sticky)
 //   S  some other start element        T  some other token (character data)
 //   X  syntax error returned by Token (sticky)
+//   Z  the reader fails with io.ErrUnexpectedEOF (truncated compressed stream; sticky)
 //   end of script: io.EOF
 
 import (
@@ -61,7 +62,7 @@ func init() {
 			return Tuple{Iface{}, d.sticky}
 		}
 		if d.pos >= len(d.events) {
-			return Tuple{Iface{}, Iface{T: nativeErrorType, V: &errVal{msg: "EOF"}}}
+			return Tuple{Iface{}, Iface{T: nativeErrorType, V: ioEOF}}
 		}
 		ev := d.events[d.pos]
 		d.pos++
@@ -77,6 +78,10 @@ func init() {
 			return Tuple{Iface{T: eng.namedType("encoding/xml", "StartElement"), V: st}, Iface{}}
 		case 'T':
 			return Tuple{Iface{T: eng.namedType("encoding/xml", "CharData"), V: Slice{A: []Value{int64('\n')}}}, Iface{}}
+		case 'Z':
+			// the underlying reader fails with io.ErrUnexpectedEOF (a truncated compressed stream)
+			d.sticky = Iface{T: nativeErrorType, V: ioErrUnexpectedEOF}
+			return Tuple{Iface{}, d.sticky}
 		case 'X':
 			d.sticky = Iface{T: nativeErrorType, V: &errVal{msg: "XML syntax error on line 1: unexpected EOF"}}
 			return Tuple{Iface{}, d.sticky}
